@@ -10,7 +10,14 @@ products, conj, norm, operator-valued functions, with or without an argument
 `w`; operations incl. QobjEvo(a, args=..), a.arguments(..), a(t, w=..) - are
 built simultaneously as real QobjEvo objects and as terms `qx G2 ZT` of the Coq
 model; Coefficient.__add__ is also compared on its own (value and class of the
-result: fused InterCoefficient or SumCoefficient); `__call__`, `_call`,
+result: fused InterCoefficient or SumCoefficient); copy(), pickling and division
+by a unit are tree operations of the model; states are operator states and kets
+in Dense, CSR and Dia storage (a ket is compared with the first column of the
+model's product and with the model's expectation on |ket><ket|); the
+superoperator / tensor lifts (spre, spost, sprepost, liouvillian,
+lindblad_dissipator, tensor, with Qobj or QobjEvo operands) are compared with
+the model over a 4x4 universe (Model/C05_g4.v; values exact except where the
+scalar 0.5 enters, there element kinds only); `__call__`, `_call`,
 `matmul_data` (Dense and CSR state), `expect_data` (Dense and CSR state) and
 the element kinds (type names, stack lengths, conj flags, recursively) are
 compared exactly (Gaussian-integer entries, integer polynomials in t, integer
@@ -68,15 +75,12 @@ Definition cfunw (p : list GI) (w : Z) : coef G2 ZT :=
 Definition cinter (g : list Z) (rows : list (list GI)) : coef G2 ZT :=
   @CInter G2 ZT (@Build_inter G2 ZT g rows).
 Definition ccst (z : GI) : coef G2 ZT := @CConst G2 ZT z.
-Definition csum (a b : coef G2 ZT) : coef G2 ZT := CSum a b.
-Definition cmulc (a b : coef G2 ZT) : coef G2 ZT := CMul a b.
-Definition cconjc (a : coef G2 ZT) : coef G2 ZT := CConj a.
-Definition cnorm (a : coef G2 ZT) : coef G2 ZT := CNorm a.
+Definition cadd (a b : coef G2 ZT) : coef G2 ZT := coef_add G2 ZT a b.
 Definition xconst (q : M2) : qx G2 ZT := @XConst G2 ZT q.
 Definition xpair (q : M2) (c : coef G2 ZT) : qx G2 ZT := @XPair G2 ZT q c.
-Definition xfunc (p : list M2) : qx G2 ZT := @XFunc G2 ZT (fun _ t => mpoly p t) None.
+Definition xfunc (p : list M2) : qx G2 ZT := @XFunc G2 ZT (fun _ t => (mpoly p t)) None.
 Definition xfuncw (p : list M2) (w : Z) : qx G2 ZT :=
-  @XFunc G2 ZT (fun a t => scale2 (gofZ (wdef a)) (mpoly p t)) (Some w).
+  @XFunc G2 ZT (fun a t => (scale2 (gofZ (wdef a)) (mpoly p t))) (Some w).
 Definition xlist (l : list (M2 * option (coef G2 ZT))) : qx G2 ZT := @XList G2 ZT l.
 Definition xaddq (a : qx G2 ZT) (q : M2) : qx G2 ZT := @XAddQ G2 ZT a q.
 Definition xaddnum (a : qx G2 ZT) (z : GI) : qx G2 ZT := @XAddNum G2 ZT a z.
@@ -91,17 +95,70 @@ Definition trmul (q : M2) : tr G2 := @TRmul G2 q.
 Definition flatg (g : GI) : list Z := [fst g; snd g].
 Definition flat2 (m : M2) : list Z :=
   flatg (e11 m) ++ flatg (e12 m) ++ flatg (e21 m) ++ flatg (e22 m).
-Definition obs (x : qx G2 ZT) (t : Z) (s : M2) :=
+(* s: operator state; sk: the ket (first column of s) as a matrix with a zero
+   second column; pj: |ket><ket| *)
+Definition obs (x : qx G2 ZT) (t : Z) (s sk pj : M2) :=
   let es := build G2 ZT x in
   (flat2 (qe_call G2 ZT es t), flat2 (qe__call G2 ZT es t),
    option_map flat2 (qe_matmul_data G2 ZT es t s),
    flatg (qe_expect G2 ZT es t s),
    map (kind_of G2 ZT) es,
-   flat2 (sem G2 ZT x t)).
+   flat2 (sem G2 ZT x t),
+   option_map flat2 (qe_matmul_data G2 ZT es t sk),
+   flatg (qe_expect G2 ZT es t pj)).
 (* Coefficient.__add__ : value at t and class of the result *)
 Definition cobs (a b : coef G2 ZT) (t : Z) :=
   (flatg (ceval G2 ZT (coef_add G2 ZT a b) t), ckind_of G2 ZT (coef_add G2 ZT a b),
    flatg (gadd (ceval G2 ZT a t) (ceval G2 ZT b t))).
+"""
+
+HEADER4 = r"""From Coq Require Import List ZArith Bool.
+Import ListNotations.
+From QV Require Import Model.C05 Model.C05_g4 Proofs.C05 Proofs.C05_g4.
+Open Scope Z_scope.
+Definition cfun4 (p : list GI) : coef G4 ZT4 := @CFun G4 ZT4 (fun _ t => cpoly p t) None.
+Definition cfunw4 (p : list GI) (w : Z) : coef G4 ZT4 :=
+  @CFun G4 ZT4 (fun a t => gmul (gofZ (wdef a)) (cpoly p t)) (Some w).
+Definition cinter4 (g : list Z) (rows : list (list GI)) : coef G4 ZT4 :=
+  @CInter G4 ZT4 (@Build_inter G4 ZT4 g rows).
+Definition ccst4 (z : GI) : coef G4 ZT4 := @CConst G4 ZT4 z.
+Definition cadd4 (a b : coef G4 ZT4) : coef G4 ZT4 := coef_add G4 ZT4 a b.
+Definition xconst4 (q : M4) : qx G4 ZT4 := @XConst G4 ZT4 q.
+Definition xpair4 (q : M4) (c : coef G4 ZT4) : qx G4 ZT4 := @XPair G4 ZT4 q c.
+Definition xfunc4 (p : list M2) : qx G4 ZT4 := @XFunc G4 ZT4 (fun _ t => (emb (mpoly p t))) None.
+Definition xfuncw4 (p : list M2) (w : Z) : qx G4 ZT4 :=
+  @XFunc G4 ZT4 (fun a t => (emb (scale2 (gofZ (wdef a)) (mpoly p t)))) (Some w).
+Definition xlist4 (l : list (M4 * option (coef G4 ZT4))) : qx G4 ZT4 := @XList G4 ZT4 l.
+Definition xaddq4 (a : qx G4 ZT4) (q : M4) : qx G4 ZT4 := @XAddQ G4 ZT4 a q.
+Definition xaddnum4 (a : qx G4 ZT4) (z : GI) : qx G4 ZT4 := @XAddNum G4 ZT4 a z.
+Definition xmulnum4 (a : qx G4 ZT4) (z : GI) : qx G4 ZT4 := @XMulNum G4 ZT4 a z.
+Definition xmatmulq4 (a : qx G4 ZT4) (q : M4) : qx G4 ZT4 := @XMatmulQ G4 ZT4 a q.
+Definition xrmatmulq4 (q : M4) (a : qx G4 ZT4) : qx G4 ZT4 := @XRmatmulQ G4 ZT4 q a.
+Definition xargs4 (a : qx G4 ZT4) (w : Z) : qx G4 ZT4 := @XArgs G4 ZT4 a (Some w).
+Definition xarguments4 (a : qx G4 ZT4) (w : Z) : qx G4 ZT4 := @XArguments G4 ZT4 a (Some w).
+Definition tto4 : tr G4 := @TTo G4.
+Definition tlmul4 (q : M4) : tr G4 := @TLmul G4 q.
+Definition trmul4 (q : M4) : tr G4 := @TRmul G4 q.
+Definition mi4 : GI := (0, -1).
+Definition h4 : GI := (1, 0).   (* stands for 0.5 where only the element kinds are compared *)
+Definition l_spre (a : qx G4 ZT4) := XLinMap t_spre a.
+Definition l_spost (a : qx G4 ZT4) := XLinMap t_spost a.
+Definition l_sprepost (a b : qx G4 ZT4) := x_sprepost G4 ZT4 t_spre t_spost a b.
+Definition l_sprepost_qb (q : M2) (b : qx G4 ZT4) := @XRmatmulQ G4 ZT4 (spre_f (emb q)) (XLinMap t_spost b).
+Definition l_sprepost_aq (a : qx G4 ZT4) (q : M2) := @XMatmulQ G4 ZT4 (XLinMap t_spre a) (spost_f (emb q)).
+Definition l_liouvillian (H : qx G4 ZT4) (cs : list (qx G4 ZT4)) :=
+  x_liouvillian G4 ZT4 t_spre t_spost mi4 h4 H cs.
+Definition l_dissipator (a b : qx G4 ZT4) := x_dissipator G4 ZT4 t_spre t_spost h4 a b.
+Definition l_tensor (a b : qx G4 ZT4) := x_tensor G4 ZT4 t_tens_l t_tens_r a b.
+Definition l_tensor_qb (q : M2) (b : qx G4 ZT4) := XLinMap (t_tens_ql q) b.
+Definition l_tensor_aq (a : qx G4 ZT4) (q : M2) := XLinMap (t_tens_qr q) a.
+Definition obs4 (x : qx G4 ZT4) (t : Z) (s : M4) :=
+  let es := build G4 ZT4 x in
+  (flat4 (qe_call G4 ZT4 es t), flat4 (qe__call G4 ZT4 es t),
+   option_map flat4 (qe_matmul_data G4 ZT4 es t s),
+   flatg4 (qe_expect G4 ZT4 es t s),
+   map (kind_of G4 ZT4) es,
+   flat4 (sem G4 ZT4 x t)).
 """
 # --------------------------------------------------------------- leaf callables
 # module-level classes so that objects built from them can be pickled
@@ -279,7 +336,7 @@ def g_tree(rng, depth, ext=False):
         return ["rmatmulq", g_mat(rng), a]
     if r < 0.84:
         return [rng.choice(["dag", "dag", "conj", "trans", "neg", "compress", "ctor"]), a]
-    if r < 0.90 or (r >= 0.95 and not ext):
+    if r < 0.90:
         k = rng.random()
         if k < 0.4:
             f = ["to", rng.choice(["Dense", "CSR", "Dia"])]
@@ -295,7 +352,8 @@ def g_tree(rng, depth, ext=False):
         return ["copy", a]
     if k < 0.7:
         return ["pickle", a]
-    return ["div", a, rng.choice([[2, 0], [0, 1], [0, -1], [-1, 0], [4, 0], [0, 2]])]
+    units = [[0, 1], [0, -1], [-1, 0], [1, 0]]
+    return ["div", a, rng.choice(units + [[2, 0], [4, 0], [0, 2]] if ext else units)]
 
 
 def g_chain(rng, ext=False):
@@ -345,13 +403,16 @@ def g_chain(rng, ext=False):
     return x
 
 
-EXT_OPS = {"copy", "pickle", "div", "arr"}
+EXT_OPS = {"arr"}
+UNITS = {(1, 0): (1, 0), (-1, 0): (-1, 0), (0, 1): (0, -1), (0, -1): (0, 1)}   # z -> 1/z
 
 
 def is_core(tree):
     if isinstance(tree, list):
         if tree and isinstance(tree[0], str) and tree[0] in EXT_OPS:
             return False
+        if tree and tree[0] == "div" and len(tree) == 3 and tuple(tree[2]) not in UNITS:
+            return False          # 1/z is not a Gaussian integer: NumPy oracle only
         return all(is_core(x) for x in tree)
     return True
 
@@ -823,6 +884,20 @@ def state_data(s, fmt):
     return q.to(getattr(qutip.data, fmt)).data
 
 
+def ket_of(s):
+    """the ket (first column of s), as a matrix with a zero second column, and |ket><ket|"""
+    k1, k2 = complex(*s[0]), complex(*s[2])
+    def g(z):
+        return [int(z.real), int(z.imag)]
+    sk = [s[0], [0, 0], s[2], [0, 0]]
+    pj = [g(k1 * k1.conjugate()), g(k1 * k2.conjugate()), g(k2 * k1.conjugate()),
+          g(k2 * k2.conjugate())]
+    return sk, pj
+
+
+FORMATS = ("Dense", "CSR", "Dia")
+
+
 def observe_impl(obj, t, s):
     """everything the correspondence compares, canonicalised"""
     import qutip
@@ -830,7 +905,8 @@ def observe_impl(obj, t, s):
     tf = float(t)
     r["call"] = to_gi_list(obj(tf).full())
     r["_call"] = to_gi_list(obj._call(tf).to_array())
-    for fmt in ("Dense", "CSR"):
+    ket = qutip.Qobj(_m_np(s)[:, :1], dims=[[2], [1]])
+    for fmt in FORMATS:
         try:
             r["md_" + fmt] = to_gi_list(obj.matmul_data(tf, state_data(s, fmt)).to_array())
         except Exception as e:            # canonicalised error
@@ -838,6 +914,13 @@ def observe_impl(obj, t, s):
             r["md_msg"] = str(e)[:200]
         v = obj.expect_data(tf, state_data(s, fmt))
         r["ex_" + fmt] = to_gi_list(np.array([v]))
+        kd = ket.to(getattr(qutip.data, fmt)).data
+        try:      # a ket: the product is a column, the expectation is <ket|A|ket>
+            col = to_gi_list(obj.matmul_data(tf, kd).to_array())
+            r["mdk_" + fmt] = [col[0], col[1], 0, 0, col[2], col[3], 0, 0]
+        except Exception as e:
+            r["mdk_" + fmt] = "ERR:" + type(e).__name__
+        r["exk_" + fmt] = to_gi_list(np.array([obj.expect_data(tf, kd)]))
     r["kinds"] = [kind_impl(e) for e in elements_of(obj)]
     return r
 
@@ -851,84 +934,93 @@ def c_z(n):
     return "(%d)" % n
 
 
-def c_mat(m):
-    return "(mk2 %s %s %s %s)" % tuple(c_gi(e) for e in m)
+def c_mat(m, u=""):
+    r = "(mk2 %s %s %s %s)" % tuple(c_gi(e) for e in m)
+    return "(emb %s)" % r if u else r
 
 
-def c_coef(c):
+def c_coef(c, u=""):
     op = c[0]
     if op == "fun":
-        return "(cfun %s)" % vlib.clist(c[1], c_gi)
+        return "(cfun%s %s)" % (u, vlib.clist(c[1], c_gi))
     if op == "funw":
-        return "(cfunw %s %s)" % (vlib.clist(c[1], c_gi), c_z(c[2]))
+        return "(cfunw%s %s %s)" % (u, vlib.clist(c[1], c_gi), c_z(c[2]))
     if op == "ipoly":
-        return "(cinter %s %s)" % (vlib.clist(c[1], c_z),
-                                    vlib.clist(c[2], lambda r: vlib.clist(r, c_gi)))
+        return "(cinter%s %s %s)" % (u, vlib.clist(c[1], c_z),
+                                      vlib.clist(c[2], lambda r: vlib.clist(r, c_gi)))
     if op == "const":
-        return "(ccst %s)" % c_gi(c[1])
+        return "(ccst%s %s)" % (u, c_gi(c[1]))
     if op == "sum":        # built with `+`: Coefficient.__add__ (add_inter for two sampled ones)
-        return "(coef_add G2 ZT %s %s)" % (c_coef(c[1]), c_coef(c[2]))
+        return "(cadd%s %s %s)" % (u, c_coef(c[1], u), c_coef(c[2], u))
     if op == "mul":
-        return "(cmulc %s %s)" % (c_coef(c[1]), c_coef(c[2]))
+        return "(CMul %s %s)" % (c_coef(c[1], u), c_coef(c[2], u))
     if op == "conj":
-        return "(cconjc %s)" % c_coef(c[1])
+        return "(CConj %s)" % c_coef(c[1], u)
     if op == "norm":
-        return "(cnorm %s)" % c_coef(c[1])
+        return "(CNorm %s)" % c_coef(c[1], u)
     raise ValueError(op)
 
 
-def c_tree(x):
+def c_tree(x, u=""):
+    """Coq term of a tree; u = "4" emits it over the 4x4 universe G4 (operators of the
+    2-dimensional space embedded in the top-left block)"""
     op = x[0]
+    T = lambda y: c_tree(y, u)
+    Mx = lambda m: c_mat(m, u)
     if op == "const":
-        return "(xconst %s)" % c_mat(x[1])
+        return "(xconst%s %s)" % (u, Mx(x[1]))
     if op == "pair":
-        return "(xpair %s %s)" % (c_mat(x[1]), c_coef(x[2]))
+        return "(xpair%s %s %s)" % (u, Mx(x[1]), c_coef(x[2], u))
     if op == "func":
-        return "(xfunc %s)" % vlib.clist(x[1], c_mat)
+        return "(xfunc%s %s)" % (u, vlib.clist(x[1], c_mat))
     if op == "funcw":
-        return "(xfuncw %s %s)" % (vlib.clist(x[1], c_mat), c_z(x[2]))
+        return "(xfuncw%s %s %s)" % (u, vlib.clist(x[1], c_mat), c_z(x[2]))
     if op == "args":
-        return "(%s %s %s)" % ("xarguments" if x[3] == "arguments" else "xargs",
-                               c_tree(x[1]), c_z(x[2]))
+        return "(%s%s %s %s)" % ("xarguments" if x[3] == "arguments" else "xargs", u,
+                                 T(x[1]), c_z(x[2]))
     if op == "list":
-        return "(xlist %s)" % vlib.clist(
-            x[1], lambda p: "(%s, %s)" % (c_mat(p[0]),
-                                          "None" if p[1] is None else "Some %s" % c_coef(p[1])))
+        return "(xlist%s %s)" % (u, vlib.clist(
+            x[1], lambda p: "(%s, %s)" % (Mx(p[0]),
+                                          "None" if p[1] is None else "Some %s" % c_coef(p[1], u))))
     if op == "add":
-        return "(XAdd %s %s)" % (c_tree(x[1]), c_tree(x[2]))
+        return "(XAdd %s %s)" % (T(x[1]), T(x[2]))
     if op == "sub":
-        return "(XSub %s %s)" % (c_tree(x[1]), c_tree(x[2]))
+        return "(XSub %s %s)" % (T(x[1]), T(x[2]))
     if op == "addq":
-        return "(xaddq %s %s)" % (c_tree(x[1]), c_mat(x[2]))
+        return "(xaddq%s %s %s)" % (u, T(x[1]), Mx(x[2]))
     if op == "addnum":
-        return "(xaddnum %s %s)" % (c_tree(x[1]), c_gi(x[2]))
+        return "(xaddnum%s %s %s)" % (u, T(x[1]), c_gi(x[2]))
     if op == "mulnum":
-        return "(xmulnum %s %s)" % (c_tree(x[1]), c_gi(x[2]))
+        return "(xmulnum%s %s %s)" % (u, T(x[1]), c_gi(x[2]))
+    if op == "div":        # a / z = a * (1/z), 1/z computed by Python (units only here)
+        return "(xmulnum%s %s %s)" % (u, T(x[1]), c_gi(UNITS[tuple(x[2])]))
     if op == "mulcoef":
-        return "(XMulCoef %s %s)" % (c_tree(x[1]), c_coef(x[2]))
+        return "(XMulCoef %s %s)" % (T(x[1]), c_coef(x[2], u))
     if op == "matmul":
-        return "(XMatmul %s %s)" % (c_tree(x[1]), c_tree(x[2]))
+        return "(XMatmul %s %s)" % (T(x[1]), T(x[2]))
     if op == "matmulq":
-        return "(xmatmulq %s %s)" % (c_tree(x[1]), c_mat(x[2]))
+        return "(xmatmulq%s %s %s)" % (u, T(x[1]), Mx(x[2]))
     if op == "rmatmulq":
-        return "(xrmatmulq %s %s)" % (c_mat(x[1]), c_tree(x[2]))
+        return "(xrmatmulq%s %s %s)" % (u, Mx(x[1]), T(x[2]))
     if op == "neg":
-        return "(XNeg %s)" % c_tree(x[1])
+        return "(XNeg %s)" % T(x[1])
     if op == "trans":
-        return "(XTrans %s)" % c_tree(x[1])
+        return "(XTrans %s)" % T(x[1])
     if op == "conj":
-        return "(XConj %s)" % c_tree(x[1])
+        return "(XConj %s)" % T(x[1])
     if op == "dag":
-        return "(XDag %s)" % c_tree(x[1])
+        return "(XDag %s)" % T(x[1])
     if op == "linmap":
         f = x[1]
-        ft = "tto" if f[0] == "to" else "(%s %s)" % ("tlmul" if f[0] == "lmul" else "trmul",
-                                                     c_mat(f[1]))
-        return "(XLinMap %s %s)" % (ft, c_tree(x[2]))
+        ft = ("tto" + u) if f[0] == "to" else "(%s%s %s)" % (
+            "tlmul" if f[0] == "lmul" else "trmul", u, Mx(f[1]))
+        return "(XLinMap %s %s)" % (ft, T(x[2]))
     if op == "compress":
-        return "(XCompress %s)" % c_tree(x[1])
+        return "(XCompress %s)" % T(x[1])
     if op == "ctor":
-        return "(XCtor %s)" % c_tree(x[1])
+        return "(XCtor %s)" % T(x[1])
+    if op in ("copy", "pickle"):
+        return "(XCopy %s)" % T(x[1])
     raise ValueError(op)
 
 
@@ -1344,8 +1436,10 @@ def gen_case(rng, ext, quick):
             continue
         if bound(x, max(1, abs(t))) * 8 > LIMIT:
             continue
-        if ext and is_core(x):
-            continue
+        if ext and is_core(x):     # extended stream: a division whose 1/z is not a Gaussian integer
+            x = ["div", x, rng.choice([[2, 0], [4, 0], [0, 2], [0, -2]])]
+            if rng.random() < 0.5:
+                x = [rng.choice(["dag", "conj", "trans", "neg", "copy"]), x]
         return {"tree": x, "t": t, "state": s}
     raise RuntimeError("generator could not produce a bounded tree")
 
@@ -1444,6 +1538,131 @@ def sampled_cases(rng, quick):
                         out.append({"tree": x, "t": t, "state": g_mat(rng), "rel": rel,
                                     "scale": scale})
     return out
+
+
+LIFTS = ["spre", "spost", "sprepost", "sprepost_qb", "sprepost_aq", "liouvillian",
+         "liouvillian_c", "dissipator", "tensor", "tensor_qb", "tensor_aq"]
+HALF = {"liouvillian_c", "dissipator"}      # involve the scalar 0.5: kinds compared, values by NumPy
+
+
+def flat16(arr):
+    return to_gi_list(np.asarray(arr).reshape(4, 4))
+
+
+def c_mat4(m16):
+    """4x4 Gaussian matrix (row-major list of 16 [re, im]) as a term of M4"""
+    def blk(r0, c0):
+        return "(mk2 %s %s %s %s)" % tuple(c_gi(m16[4 * (r0 + i) + c0 + j])
+                                           for i in (0, 1) for j in (0, 1))
+    return "(blk %s %s %s %s)" % (blk(0, 0), blk(0, 2), blk(2, 0), blk(2, 2))
+
+
+def lift_correspondence(ctx, rng, n):
+    """superoperator / tensor lifts of QobjEvo: real objects against the model over the
+    4x4 universe (exact: __call__, _call, matmul_data with 4x4 Dense/CSR states, element
+    kinds; expect_data for tensor)"""
+    import qutip
+    cases = []
+    tries = 0
+    while len(cases) < n and tries < 20 * n:
+        tries += 1
+        a = gen_case(rng, False, True)
+        b = gen_case(rng, False, True)
+        if has_op(a["tree"], {"addnum"}) or has_op(b["tree"], {"addnum"}):
+            continue          # a + z adds z on the whole universe in the model
+        if not (is_core(a["tree"]) and is_core(b["tree"])):
+            continue
+        if n_terms(a["tree"]) * n_terms(b["tree"]) > 12:
+            continue
+        if (bound(a["tree"], 3) * bound(b["tree"], 3)) ** 2 * 256 > LIMIT:
+            continue
+        kind = LIFTS[len(cases) % len(LIFTS)]
+        cases.append({"lift": kind, "a": a["tree"], "b": b["tree"], "t": a["t"],
+                      "q": g_mat(rng), "s4": [g_gi(rng) for _ in range(16)]})
+    exprs, impl = [], []
+    for c in cases:
+        A, B, q = c["a"], c["b"], c["q"]
+        ta, tb, tq = c_tree(A, "4"), c_tree(B, "4"), c_mat(q)
+        k = c["lift"]
+        term = {"spre": "(l_spre %s)" % ta, "spost": "(l_spost %s)" % ta,
+                "sprepost": "(l_sprepost %s %s)" % (ta, tb),
+                "sprepost_qb": "(l_sprepost_qb %s %s)" % (tq, tb),
+                "sprepost_aq": "(l_sprepost_aq %s %s)" % (ta, tq),
+                "liouvillian": "(l_liouvillian %s [])" % ta,
+                "liouvillian_c": "(l_liouvillian %s [%s])" % (ta, tb),
+                "dissipator": "(l_dissipator %s %s)" % (ta, tb),
+                "tensor": "(l_tensor %s %s)" % (ta, tb),
+                "tensor_qb": "(l_tensor_qb %s %s)" % (tq, tb),
+                "tensor_aq": "(l_tensor_aq %s %s)" % (ta, tq)}[k]
+        exprs.append("obs4 %s (%d) %s" % (term, c["t"], c_mat4(c["s4"])))
+        r = {}
+        try:
+            ea, eb = build_impl(A, False), build_impl(B, False)
+            qq = _qobj(_m_np(q))
+            obj = {"spre": lambda: qutip.spre(ea), "spost": lambda: qutip.spost(ea),
+                   "sprepost": lambda: qutip.sprepost(ea, eb),
+                   "sprepost_qb": lambda: qutip.sprepost(qq, eb),
+                   "sprepost_aq": lambda: qutip.sprepost(ea, qq),
+                   "liouvillian": lambda: qutip.liouvillian(ea),
+                   "liouvillian_c": lambda: qutip.liouvillian(ea, [eb]),
+                   "dissipator": lambda: qutip.lindblad_dissipator(ea, eb),
+                   "tensor": lambda: qutip.tensor(ea, eb),
+                   "tensor_qb": lambda: qutip.tensor(qq, eb),
+                   "tensor_aq": lambda: qutip.tensor(ea, qq)}[k]()
+            tf = float(c["t"])
+            r["kinds"] = [kind_impl(e) for e in elements_of(obj)]
+            if k not in HALF:
+                r["call"] = flat16(obj(tf).full())
+                r["_call"] = flat16(obj._call(tf).to_array())
+                S = np.array([gi_c(v) for v in c["s4"]], dtype=complex).reshape(4, 4)
+                for fmt in ("Dense", "CSR"):
+                    d = qutip.Qobj(S).to(getattr(qutip.data, fmt)).data
+                    r["md_" + fmt] = flat16(obj.matmul_data(tf, d).to_array())
+                    if k.startswith("tensor"):
+                        r["ex_" + fmt] = to_gi_list(np.array([obj.expect_data(tf, d)]))
+        except Exception as e:
+            r = {"error": "%s: %s" % (type(e).__name__, str(e)[:200])}
+        impl.append(r)
+    try:
+        vals = vlib.coq_eval_values("cases_C05_lift", HEADER4, exprs, chunk=100)
+    except RuntimeError as e:
+        ctx.violation("corr:C05:model-eval", "coqc-lift", "model evaluation failed",
+                      {"log": str(e)[-2500:]}, found_input=False)
+        return len(cases), 0
+    mism = 0
+    for c, r, mv in zip(cases, impl, vals):
+        m_call, m__call, m_md, m_ex, m_kinds, m_sem = vlib.parse_coq_value(mv)
+        m_md = None if m_md is None else list(m_md[1])
+        ctx.count_case(("lift", json.dumps(c, sort_keys=True)))
+        ctx.cov["traces_validated_against_impl"] += 1
+        diffs = []
+        if "error" in r:
+            diffs.append(("build", r["error"], None))
+        else:
+            if [canon_kind(k) for k in r["kinds"]] != [canon_kind(k) for k in m_kinds]:
+                diffs.append(("element kinds", repr(r["kinds"]), repr(m_kinds)))
+            if c["lift"] not in HALF:
+                if r["call"] != list(m_call):
+                    diffs.append(("__call__", r["call"], list(m_call)))
+                if r["_call"] != list(m__call):
+                    diffs.append(("_call", r["_call"], list(m__call)))
+                if list(m_call) != list(m_sem):
+                    diffs.append(("model: call vs sem", list(m_call), list(m_sem)))
+                for fmt in ("Dense", "CSR"):
+                    if r["md_" + fmt] != m_md:
+                        diffs.append(("matmul_data/" + fmt, r["md_" + fmt], m_md))
+                    if "ex_" + fmt in r and r["ex_" + fmt] != list(m_ex):
+                        diffs.append(("expect_data/" + fmt, r["ex_" + fmt], list(m_ex)))
+        if diffs:
+            mism += 1
+            if mism <= 3:
+                n0 = lifts_case(ctx, c["a"], c["b"], c["t"], "lift-correspondence")
+                ctx.violation("corr:C05:lift:" + c["lift"], "model-differs",
+                              "model and implementation disagree on %s (%s)"
+                              % (c["lift"], diffs[0][0]),
+                              {"kind": "liftcorr", "case": c, "diffs": diffs[:3]},
+                              found_input=bool(n0))
+    return len(cases), mism
 
 
 def systematic_cases(maxlen):
@@ -1561,6 +1780,14 @@ def run(ctx):
         "within 4 ulp of each other are outside the theorem (rounding level)",
         "InterCoefficient's index search returns the interval of t for an increasing grid "
         "(find_idx); construction of the polynomial pieces from samples (splines) is C06",
+        "lifts: operators of the 2-dimensional space are the top-left block of the 4x4 "
+        "universe G4 and spre/spost/tensor read that block (so `a + number` is excluded from "
+        "lifted operands); the scalar 0.5 of lindblad_dissipator is not a Gaussian integer: "
+        "for it and liouvillian with c_ops the correspondence compares element kinds and the "
+        "NumPy oracle compares values; expect_data of superoperators (column-stacked states) "
+        "is outside the model",
+        "a ket is read as the matrix with that column and a zero second column; "
+        "<ket|A|ket> as tr(A |ket><ket|)",
         "NumPy as the independent evaluator of the oracle (exact on the integer payloads)",
     ]
 
@@ -1571,8 +1798,8 @@ def run(ctx):
             if oracle_case(ctx, c["tree"], c["t"], c["state"], "search-after-proof-failure"):
                 return
 
-    vlib.standard_proof_step(ctx, ["Props/C05.vo", "Props/C05_mx.vo"],
-                             ["Props/C05.v", "Props/C05_mx.v"], search)
+    vlib.standard_proof_step(ctx, ["Props/C05.vo", "Props/C05_mx.vo", "Props/C05_lifts.vo"],
+                             ["Props/C05.v", "Props/C05_mx.v", "Props/C05_lifts.v"], search)
 
     if not ctx.quick:
         # independent re-check of the compiled property file by coqchk
@@ -1639,7 +1866,8 @@ def run(ctx):
         dist["terms"][nt] = dist["terms"].get(nt, 0) + 1
         ctx.count_case(json.dumps(c, sort_keys=True), nontrivial=d >= 2)
     ctx.cov["model_variant"] = MODEL_VARIANT
-    exprs = ["obs %s (%d) %s" % (c_tree(c["tree"]), c["t"], c_mat(c["state"]))
+    exprs = ["obs %s (%d) %s %s %s" % ((c_tree(c["tree"]), c["t"], c_mat(c["state"]))
+                                       + tuple(c_mat(m) for m in ket_of(c["state"])))
              for c in core_cases]
     model_vals = None
     try:
@@ -1652,8 +1880,9 @@ def run(ctx):
     if model_vals is not None:
         for c, r, mv in zip(core_cases, impl, model_vals):
             v = vlib.parse_coq_value(mv)
-            m_call, m__call, m_md, m_ex, m_kinds, m_sem = v
+            m_call, m__call, m_md, m_ex, m_kinds, m_sem, m_mdk, m_exk = v
             m_md = None if m_md is None else list(m_md[1])
+            m_mdk = None if m_mdk is None else list(m_mdk[1])
             m_kinds = [canon_kind(k) for k in m_kinds]
             diffs = []
             if "error" in r:
@@ -1663,13 +1892,18 @@ def run(ctx):
                     diffs.append(("__call__", r["call"], list(m_call)))
                 if r["_call"] != list(m__call):
                     diffs.append(("_call", r["_call"], list(m__call)))
-                for fmt in ("Dense", "CSR"):
+                for fmt in FORMATS:
                     im = r["md_" + fmt]
                     mo = "ERR:TypeError" if m_md is None else m_md
                     if im != mo:
                         diffs.append(("matmul_data/" + fmt, im, mo))
                     if r["ex_" + fmt] != list(m_ex):
                         diffs.append(("expect_data/" + fmt, r["ex_" + fmt], list(m_ex)))
+                    mo = "ERR:TypeError" if m_mdk is None else m_mdk
+                    if r["mdk_" + fmt] != mo:
+                        diffs.append(("matmul_data/ket/" + fmt, r["mdk_" + fmt], mo))
+                    if r["exk_" + fmt] != list(m_exk):
+                        diffs.append(("expect_data/ket/" + fmt, r["exk_" + fmt], list(m_exk)))
                 if [canon_kind(k) for k in r["kinds"]] != m_kinds:
                     diffs.append(("element kinds", repr(r["kinds"]), repr(m_kinds)))
             # the NumPy oracle is the Coq `sem`
@@ -1693,6 +1927,8 @@ def run(ctx):
                                   + ("" if n else " (the oracle finds no property violation "
                                      "on this input)"),
                                   {"case": c, "diffs": diffs[:4]}, found_input=bool(n))
+    nlc, lm = lift_correspondence(ctx, rng, 60 if ctx.quick else 900)
+
     # Coefficient.__add__ (add_inter: fuse or SumCoefficient): value and class
     ncadd = 120 if ctx.quick else 1500
     cadd_cases = []
@@ -1747,8 +1983,9 @@ def run(ctx):
                               "impl %r %s, model %r %s" % (i_val, i_kind, list(m_val), m_kind),
                               {"kind": "coef", "coef": ["sum", a, b], "t": t},
                               found_input=bool(n))
-    ctx.log("correspondence: %d trees (%d mismatches), %d coefficient sums (%d mismatches)"
-            % (len(core_cases), mism, len(cadd_cases), cm))
+    ctx.log("correspondence: %d trees (%d mismatches), %d lifts (%d mismatches), "
+            "%d coefficient sums (%d mismatches)"
+            % (len(core_cases), mism, nlc, lm, len(cadd_cases), cm))
 
     # -- oracle on the same trees + extended trees + lifts + coefficients + malformed
     nor = 0
@@ -1833,8 +2070,8 @@ def run(ctx):
         "source by exact equality of __call__/_call/matmul_data/expect_data/element kinds on "
         "generated trees (vm_compute on the 2x2 Gaussian instance).  Independently the "
         "property itself is checked on the real objects against NumPy; operations outside "
-        "the modelled core (copy, pickle, division, tensor and "
-        "superoperator lifts, ket states, Dia states, Coefficient algebra including sampled "
+        "the modelled core (division by non-units, values of lindblad_dissipator, "
+        "operator_to_vector, Coefficient algebra including sampled "
         "coefficients and add_inter, malformed operands) are covered by that oracle only and "
         "are exploration, not obligations; comparisons involving sampled coefficients of "
         "order >= 2 or non power-of-two grids use a 1e-12 relative tolerance (validation).")
